@@ -52,7 +52,7 @@ Definition own_glyph (o : oracle) (s : grid cell) (r c : nat) : scell :=
   match gget s r c with
   | Some x =>
       match ckind x with
-      | KChar ch => if cw o ch =? 2 then (WL ch, cface x) else (glyph_of ch, cface x)
+      | KChar ch => if cw o ch =? 2 then (WL ch, cface x) else cell_of o ch (cface x)
       | _ => (Blank, cface x)
       end
   | None => (Blank, face_default)
@@ -70,7 +70,7 @@ Definition left_wide (o : oracle) (s : grid cell) (r c : nat) : option face :=
 Definition den (o : oracle) (h w : nat) (s : grid cell) (r c : nat) : scell :=
   match cover_img o h w s r c with
   | Some (r0, c0) =>
-      match img_at s r0 c0 with Some (f, _) => (Blank, f) | None => (Blank, face_default) end
+      match img_at s r0 c0 with Some (f, _) => (Blank, ferase o f) | None => (Blank, face_default) end
   | None =>
       match left_wide o s r c with
       | Some f => (WR, f)
@@ -166,7 +166,7 @@ Section GoodFacts.
   (* under an image: the covering image is unique, so den shows its face *)
   Lemma den_under_img : forall r0 c0 f i r c,
     img_at s r0 c0 = Some (f, i) -> in_rect o r0 c0 i r c = true -> r < h -> c < w ->
-    den o h w s r c = (Blank, f).
+    den o h w s r c = (Blank, ferase o f).
   Proof.
     intros r0 c0 f i r c Hi Hin Hr Hc. unfold den.
     destruct (cover_img o h w s r c) as [[r1 c1]|] eqn:E.
@@ -230,7 +230,7 @@ Section GoodFacts.
   Lemma den_narrow : forall r c x ch,
     gget s r c = Some x -> ckind x = KChar ch -> cw o ch = 1 ->
     cover_img o h w s r c = None -> left_wide o s r c = None ->
-    den o h w s r c = (glyph_of ch, cface x).
+    den o h w s r c = cell_of o ch (cface x).
   Proof.
     intros r c x ch Hx Hk Hw1 Hc Hl. unfold den. rewrite Hc, Hl.
     unfold own_glyph. rewrite Hx, Hk, Hw1. reflexivity.
@@ -247,7 +247,7 @@ Section GoodFacts.
     destruct (ckind x) as [ch'| |] eqn:Ek; try discriminate.
     destruct (cw o ch' =? 2) eqn:Ew.
     - apply Nat.eqb_eq in Ew. destruct (den_wide r k x ch' Ex Ek Ew) as [_ H2]. rewrite H2. reflexivity.
-    - simpl in H. unfold glyph_of in H. destruct (N.eqb ch' space); discriminate.
+    - unfold cell_of in H. destruct (N.eqb ch' space); discriminate.
   Qed.
 
   Lemma den_wr : forall r k, fst (den o h w s r k) = WR ->
@@ -267,7 +267,7 @@ Section GoodFacts.
     - exfalso. unfold own_glyph in H. destruct (gget s r k) as [x|] eqn:Ex; [|discriminate].
       destruct (ckind x) as [ch'| |] eqn:Ek; try discriminate.
       destruct (cw o ch' =? 2); simpl in H; try discriminate.
-      unfold glyph_of in H. destruct (N.eqb ch' space); discriminate.
+      unfold cell_of in H. destruct (N.eqb ch' space); discriminate.
   Qed.
 
   (* the cell behind a wide character holds a narrow character (it owns no object) *)
